@@ -242,6 +242,8 @@ def inlined(facts, body, depth=0, stack=(), t1=True, t2=True, same_type=None):
         changed = True
     if t2 and desugar_combinators(facts, body, blocks, locals_, depth, stack, t1):
         changed = True
+    if t2 and desugar_loop_filters(facts, body, blocks, locals_, depth, stack, t1):
+        changed = True
     if t2 and desugar_adaptors(facts, body, blocks, locals_, depth, stack, t1):
         changed = True
         unroll_array_loops(blocks, locals_)      # `[a, b].into_iter().for_each(f)` has just become a loop over the literal
@@ -1112,6 +1114,108 @@ def desugar_combinators(facts, body, blocks, locals_, depth, stack, t1=True):
                     emit_call(a1, fns[2], [x], dl, fin); emit_call(a2, fns[1], [e], dl, fin)
         changed = True
         i = 0   # new blocks may contain further combinators (chains)
+    return changed
+
+
+def desugar_loop_filters(facts, body, blocks, locals_, depth, stack, t1=True):
+    """`for x in it.filter(p) { body }` is `for x in it { if p(&x) { body } }`: the `filter` stage in front of a `for` loop is
+    removed and its predicate is spliced into the head of the loop body (an item it rejects goes straight to the next one)."""
+    changed = False
+    for fi in range(len(blocks)):
+        blk = blocks[fi]
+        t = blk['term']
+        if blk['cleanup'] or t['k'] != 'call' or t.get('target') is None or not t.get('callee') or len(blocks) >= MAX_BLOCKS:
+            continue
+        c = t['callee']
+        if c.get('name') != 'filter' or not (c.get('trait') or '').endswith('iter::Iterator') or len(t['args']) != 2 or t['dest']['proj']:
+            continue
+        clo = _closure_of(facts, blocks, t['args'][1])
+        if clo is None or clo[1].uid in stack:
+            continue
+        # follow the filtered iterator through plain moves / into_iter to the `next` call that drives a loop
+        its = {t['dest']['local']}
+        head = None
+        for _ in range(6):
+            grew = False
+            for bi, b in enumerate(blocks):
+                for st in b['stmts']:
+                    if st['k'] == 'assign' and not st['place']['proj'] and st['rv'].get('k') == 'use' and _plain_local(st['rv']['op']) in its \
+                            and st['place']['local'] not in its:
+                        its.add(st['place']['local'])
+                        grew = True
+                tt = b['term']
+                if tt['k'] == 'call' and tt.get('callee') and len(tt['args']) == 1 and _plain_local(tt['args'][0]) in its and not tt['dest']['proj']:
+                    if tt['callee'].get('name') == 'into_iter' and tt['dest']['local'] not in its:
+                        its.add(tt['dest']['local'])
+                        grew = True
+            if not grew:
+                break
+        refs = set()
+        for _ in range(3):
+            for b in blocks:
+                for st in b['stmts']:
+                    if st['k'] != 'assign' or st['place']['proj'] or st['rv'].get('k') != 'ref':
+                        continue
+                    rp = st['rv']['place']
+                    if (rp['local'] in its and not rp['proj']) or (rp['local'] in refs and [e.get('k') for e in rp['proj']] == ['deref']):
+                        refs.add(st['place']['local'])
+        heads = [bi for bi, b in enumerate(blocks) if b['term']['k'] == 'call' and (b['term'].get('callee') or {}).get('name') == 'next'
+                 and len(b['term']['args']) == 1 and _plain_local(b['term']['args'][0]) in refs and not b['term']['dest']['proj']
+                 and b['term'].get('target') is not None]
+        if len(heads) != 1:
+            continue
+        head = heads[0]
+        # every other use of the filtered iterator must be one of the moves / borrows just followed
+        other_use = False
+        for bi, b in enumerate(blocks):
+            for st in b['stmts']:
+                if st['k'] in ('dead', 'live'):
+                    continue
+                if any(_uses_local(st, l) for l in its | refs):
+                    pl = st.get('place', {}).get('local')
+                    if st['k'] == 'assign' and (pl in its or pl in refs):
+                        continue
+                    other_use = True
+            tt = b['term']
+            if tt is t or bi == head:
+                continue
+            if any(_uses_local(tt, l) for l in its | refs):
+                if tt['k'] == 'call' and (tt.get('callee') or {}).get('name') == 'into_iter' and tt['dest']['local'] in its:
+                    continue
+                if tt['k'] == 'drop':
+                    continue
+                other_use = True
+        if other_use:
+            continue
+        nl = blocks[head]['term']['dest']['local']
+        swb = blocks[head]['term']['target']
+        sw = blocks[swb]['term']
+        if sw['k'] != 'switch':
+            continue
+        tg = dict((v, b_) for v, b_ in sw['targets'])
+        if 1 not in tg:
+            continue
+        some_b = tg[1]
+        B = _Builder(blocks, locals_, t['span'])
+        cl, cb = clo
+        cin = inlined(facts, cb, depth + 1, stack + (body.uid,), t1, True)
+        env_ref = cin.locals[1]['ty'].get('k') == 'ref'
+        env_bind = {'k': 'rv', 'rv': {'k': 'ref', 'mut': bool(cin.locals[1]['ty'].get('mut')), 'place': _pl(cl)}} if env_ref else _cp(cl)
+        item_ref = {'k': 'rv', 'rv': {'k': 'ref', 'mut': False, 'place': _pl(nl, list(SOME_P))}}
+        # the old Some-arm moves to a fresh block; the arm now starts with the predicate
+        body_b = B.block(blocks[some_b]['stmts'], blocks[some_b]['term'])
+        mid = B.block()
+        entry, binds, off_l = B.splice(cin, [env_bind, item_ref], mid)
+        blocks[some_b]['stmts'] = binds
+        blocks[some_b]['term'] = {'k': 'goto', 'target': entry}
+        blocks[mid]['term'] = {'k': 'switch', 'discr': _cp(off_l), 'discr_ty': BOOL_TY, 'targets': [[0, head]], 'otherwise': body_b, 'span': t['span']}
+        # the closure value is now read in every iteration: it must stay alive for the whole loop
+        for b_ in blocks:
+            b_['stmts'] = [x for x in b_['stmts'] if not (x['k'] == 'dead' and x.get('local') == cl)]
+        # the stage itself: the filtered iterator is the underlying one
+        blk['stmts'].append(B.assign(t['dest'], {'k': 'use', 'op': t['args'][0]}))
+        blk['term'] = {'k': 'goto', 'target': t['target']}
+        changed = True
     return changed
 
 
